@@ -14,23 +14,23 @@ import (
 // a transaction while shrinking leaves the others meaningful.
 
 type Profile struct {
-	Name       string
-	MaxOps     int
-	WInsert    int
-	WUpdate    int
-	WMutate    int
-	WDelete    int
-	WSelect    int
-	WWait      int
-	FailPermil int // plant a failing operation
-	BadCommit  int // permil: plant a commit-time violation
-	Named      int // permil: inserts use uuid-name and later ops refer to it
-	ExplicitID int // permil: inserts carry an explicit uuid
-	SameRow    int // permil: next op targets a row already touched in this txn
-	Compose    int // permil: insert a non-root row together with a reference to it
-	MaxRows    int // delete pressure above this many rows in a table
-	IndexPlay  int // permil: the transaction is one of the index patterns (swap, hand-over, delete+reinsert, duplicates)
-	DupName    int // permil: two inserts claim the same uuid-name
+	Name        string
+	MaxOps      int
+	WInsert     int
+	WUpdate     int
+	WMutate     int
+	WDelete     int
+	WSelect     int
+	WWait       int
+	FailPermil  int  // plant a failing operation
+	BadCommit   int  // permil: plant a commit-time violation
+	Named       int  // permil: inserts use uuid-name and later ops refer to it
+	ExplicitID  int  // permil: inserts carry an explicit uuid
+	SameRow     int  // permil: next op targets a row already touched in this txn
+	Compose     int  // permil: insert a non-root row together with a reference to it
+	MaxRows     int  // delete pressure above this many rows in a table
+	IndexPlay   int  // permil: the transaction is one of the index patterns (swap, hand-over, delete+reinsert, duplicates)
+	DupName     int  // permil: two inserts claim the same uuid-name
 	SimpleWhere bool // where clauses restricted to _uuid ==, "all rows" and scalar equality (keeps condition-evaluation defects out of other properties' checks)
 }
 
@@ -102,7 +102,7 @@ func NewGen(sch *Schema, seed uint64, st DBState, prof Profile, tag string) *Gen
 	return &Gen{sch: sch, rng: simrt.NewRand(seed), st: st, prof: prof, named: map[string][]string{}, decl: map[string]string{}, tag: tag}
 }
 
-func (g *Gen) pick(n int) int { return g.rng.Intn(n) }
+func (g *Gen) pick(n int) int         { return g.rng.Intn(n) }
 func (g *Gen) chance(permil int) bool { return g.rng.Intn(1000) < permil }
 
 func (g *Gen) uuidFor(label string) string {
